@@ -74,6 +74,8 @@ class Harness:
         self.assume = kv.get("assume", "")
         self.known = kv.get("known")  # id of the known finding this harness is carved out for
         self.nocover = kv.get("nocover") == "1"
+        # concrete values (hex, one per kani::any() call) for the native fallback run after a solver timeout
+        self.probe = kv.get("probe")
 
     @property
     def package(self):
@@ -352,6 +354,27 @@ def playback(scratch, h, fq, features, idx, prop):
     return ok, replay_path, detail
 
 
+def probe_native(scratch, h, fq, features, prop):
+    """Timeout triage. When CBMC did not finish a harness (a change to the code can make an otherwise pruned path -
+    typically recursive drop glue - reachable), the harness body is executed natively once on the concrete input given by
+    its `probe=` annotation. A native panic is a real failing input of the real code and is reported as a violation
+    (sound); no panic leaves the harness inconclusive. A pass is never derived from a probe."""
+    vals = ",\n        ".join("vec![" + ", ".join(str(b) for b in bytes.fromhex(v)) + "]" for v in h.probe.split(","))
+    test = (f"// native fallback probe of harness `{fq}` after a solver timeout (concrete input from its probe= annotation)\n"
+            f"#[test]\nfn kani_concrete_playback_probe_{h.name}() {{\n    let concrete_vals: Vec<Vec<u8>> = vec![\n        {vals},\n    ];\n"
+            f"    kani::concrete_playback_run(concrete_vals, {h.name});\n}}\n")
+    os.makedirs(REPLAY_DIR, exist_ok=True)
+    replay_path = os.path.join(REPLAY_DIR, f"{prop}-{h.name}.rs")
+    body = ("// Replay file written by /verif/bin/check. The solver did not finish this harness; the concrete input below\n"
+            f"// (probe annotation of `{fq}`, harness source: {h.file.path}) fails natively.\n"
+            f"// Re-run natively: /verif/bin/check --replay {replay_path}\n"
+            f"// @replay harness={h.name} file={os.path.relpath(h.file.path, VERIF) if h.file.path.startswith(VERIF) else os.path.basename(h.file.path)} package={h.package} "
+            f"features={','.join(features)}\n\n" + test)
+    open(replay_path, "w").write(body)
+    ok, detail = run_playback_tests(scratch, h.file, h.package, features, test)
+    return ok, replay_path, detail
+
+
 def run_playback_tests(scratch, hfile, package, features, tests_src):
     # the harness module is included by #[path]; make a copy with the tests appended and re-point the include
     copy = os.path.join(scratch.gen, "playback_" + os.path.basename(hfile.path))
@@ -515,12 +538,23 @@ def check(prop, tier, seed, keep=False, only=None):
         inconclusive = []
         not_replayed = []
         replayed = 0
+        probes = 0
         byname = {h.name: h for h in hs}
         for name, d in sorted(results.items()):
             h = byname[name]
             if d["status"] == "pass":
                 continue
             if d["status"] in ("inconclusive", "missing"):
+                if h.probe and d["status"] == "inconclusive" and "vacuity" not in d["why"] and probes < 3:
+                    probes += 1
+                    ok, rpath, detail = probe_native(scratch, h, d["fq"], d["features"], prop)
+                    if ok:
+                        d["replay"] = rpath
+                        d["replay_detail"] = "solver inconclusive (" + d["why"] + "); native probe: " + detail
+                        d["failed"] = [{"description": "native probe of the harness panics", "function": d["fq"],
+                                        "file": h.file.path, "line": "?", "category": "probe"}]
+                        violations.append((name, d))
+                        continue
                 inconclusive.append((name, d["why"]))
                 continue
             # failed: known-finding carve-out harness?
